@@ -542,8 +542,8 @@ func derivesFromCallArgs(p *Prog, v ssa.Value, pred func(ssa.Value) bool) bool {
 					return true
 				}
 			}
-			// through the results of a repo helper
-			if sc := x.Common().StaticCallee(); sc != nil && sc.Blocks != nil && sc.Pkg != nil && strings.HasPrefix(sc.Pkg.Pkg.Path(), modPath) {
+			// through the result of a repo helper (several results are handled at the Extract)
+			if sc := x.Common().StaticCallee(); sc != nil && sc.Blocks != nil && sc.Pkg != nil && strings.HasPrefix(sc.Pkg.Pkg.Path(), modPath) && sc.Signature.Results().Len() == 1 {
 				for _, b := range sc.Blocks {
 					if ret, ok := b.Instrs[len(b.Instrs)-1].(*ssa.Return); ok {
 						for _, rv := range ret.Results {
@@ -583,6 +583,19 @@ func derivesFromCallArgs(p *Prog, v ssa.Value, pred func(ssa.Value) bool) bool {
 		case *ssa.MakeInterface:
 			return rec(x.X, d+1)
 		case *ssa.Extract:
+			// one result of a repo helper: only what that helper returns in this position
+			if c, ok := x.Tuple.(*ssa.Call); ok {
+				if sc := c.Common().StaticCallee(); sc != nil && sc.Blocks != nil && sc.Pkg != nil && strings.HasPrefix(sc.Pkg.Pkg.Path(), modPath) {
+					for _, b := range sc.Blocks {
+						if ret, ok := b.Instrs[len(b.Instrs)-1].(*ssa.Return); ok && x.Index < len(ret.Results) {
+							if rec(ret.Results[x.Index], d+1) {
+								return true
+							}
+						}
+					}
+					return false
+				}
+			}
 			return rec(x.Tuple, d+1)
 		case *ssa.IndexAddr:
 			return rec(x.X, d+1)
